@@ -41,7 +41,8 @@ NameInstantiate == <<"i","n","s","t","a","n","t","i","a","t","e">>
 NameMigrate == <<"m","i","g","r","a","t","e">>
 NameFoo == <<"f","o","o">>
 NameBar == <<"b","a","r">>
-TableNames == NameUniverse \cup SmallNames \cup {NameInstantiate, NameMigrate, NameFoo, NameBar, <<"x">>, <<"y">>, <<"z">>, <<"a","_","b">>, <<"a","_","_","b">>, <<"a","1">>, <<"a","_","1">>, <<"a","a","1">>}
+TableNames == NameUniverse \cup SmallNames \cup {NameInstantiate, NameMigrate, NameFoo, NameBar, <<"x">>, <<"y">>, <<"z">>, <<"a","_","b">>, <<"a","_","_","b">>, <<"a","1">>, <<"a","_","1">>, <<"a","a","1">>,
+                <<"a","_","é">>, <<"é">>, <<"b","_","é","a">>, <<"é","_","b">>}
 CaseTable == TLCEval([n \in TableNames |-> [v |-> VariantDef(n), w |-> WireDef(n), near |-> NearDef(n)]])
 VariantFast(n) == CaseTable[n].v
 WireFast(n) == CaseTable[n].w
@@ -174,14 +175,15 @@ Defaults1 ==
                                                 Dm(<<"z">>, "sudo", << [n |-> "s", t |-> "DfltU32"], [n |-> "t", t |-> "DfltU32W"] >>),
                                                 Dm(NameMigrate, "migrate", << [n |-> "v", t |-> "DfltU32W"], [n |-> "w", t |-> "u32"] >>) >>] >>]
 
-(* argument names that are Rust keywords (written as raw identifiers `r#type` in the source): on the wire the plain name *)
+(* argument names that are Rust keywords (written as raw identifiers `r#type` in the source): on the wire the plain name;
+   and names next to keywords (`type_`, `_in`): on the wire exactly as written *)
 Km(name, kind, sig) == [Sh(name, kind, "ok") EXCEPT !.args = sig]
 Keywords1 ==
     [id |-> "K1", family |-> "shared", overrides |-> {},
-     parts |-> << [id |-> "i1", methods |-> << Km(NameFoo, "exec", << [n |-> "type", t |-> "u32"], [n |-> "ref", t |-> "String"] >>),
+     parts |-> << [id |-> "i1", methods |-> << Km(NameFoo, "exec", << [n |-> "type", t |-> "u32"], [n |-> "ref", t |-> "String"], [n |-> "type_", t |-> "u32"] >>),
                                                Km(NameBar, "query", << [n |-> "fn", t |-> "u32"] >>) >>],
-                  [id |-> "own", methods |-> << Km(NameInstantiate, "instantiate", << [n |-> "mod", t |-> "u32"] >>),
-                                                Km(<<"x">>, "exec", << [n |-> "match", t |-> "u32"], [n |-> "type", t |-> "String"] >>),
+                  [id |-> "own", methods |-> << Km(NameInstantiate, "instantiate", << [n |-> "mod", t |-> "u32"], [n |-> "ref_", t |-> "u32"] >>),
+                                                Km(<<"x">>, "exec", << [n |-> "match", t |-> "u32"], [n |-> "type", t |-> "String"], [n |-> "match_", t |-> "bool"], [n |-> "_in", t |-> "u32"] >>),
                                                 Km(<<"y">>, "query", << [n |-> "loop", t |-> "u32"] >>),
                                                 Km(<<"z">>, "sudo", << [n |-> "move", t |-> "u32"] >>) >>] >>]
 
@@ -200,6 +202,13 @@ Nested1 ==
      parts |-> << [id |-> "i1", methods |-> << Sh(NameFoo, "exec", "ok"), Sh(NameBar, "query", "ok") >>],
                   [id |-> "i2", methods |-> << Sh(<<"x">>, "exec", "err"), Sh(<<"y">>, "query", "ok"), Sh(<<"z">>, "sudo", "ok") >>],
                   [id |-> "own", methods |-> << Sh(NameInstantiate, "instantiate", "ok"), Sh(<<"a">>, "exec", "ok"), Sh(<<"b">>, "query", "ok") >>] >>]
+
+(* handler names with a cased letter outside ASCII (legal Rust identifiers): the published lists must still be the serialised names *)
+Unicode1 ==
+    [id |-> "U1", family |-> "shared", overrides |-> {},
+     parts |-> << [id |-> "i1", methods |-> << Sh(<<"a","_","é">>, "exec", "ok"), Sh(<<"é","_","b">>, "query", "ok") >>],
+                  [id |-> "own", methods |-> << Sh(NameInstantiate, "instantiate", "ok"), Sh(<<"é">>, "exec", "ok"),
+                                                Sh(<<"b","_","é","a">>, "query", "err"), Sh(<<"a","_","é">>, "sudo", "ok") >>] >>]
 
 (* programs that override entry points (C06, C04): one handler of every kind, some kinds served by the user's own functions *)
 OvProg(id, ov) ==
@@ -247,7 +256,7 @@ PermTwin(p) ==
 RawSeq ==      \* all programs of this instance, as a sequence
        [gi \in 1..Len(Groups) |-> CorpusProg(gi)]
     \o [i \in 1..Len(SmallFs) |-> SmallProgOf(SmallFs[i], "m" \o ToString(i))]
-    \o <<Shared1, Shared2, Shared3, Nested1, Wide1, Defaults1, Keywords1, Generic1, Generic2, PermTwin(Shared1), PermTwin(CorpusProg(1))>> \o OverrideProgs \o CollideProgs
+    \o <<Shared1, Shared2, Shared3, Nested1, Unicode1, Wide1, Defaults1, Keywords1, Generic1, Generic2, PermTwin(Shared1), PermTwin(CorpusProg(1))>> \o OverrideProgs \o CollideProgs
 
 (* the table of elaborated programs: the static semantics applied once per program *)
 ElabSeq == TLCEval([i \in 1..Len(RawSeq) |-> Elab(RawSeq[i])])
